@@ -59,6 +59,14 @@ CMP_CFG['extern'].update({
 CMP_CFG['exception_kinds'] = {r'std::runtime_error': 2}
 CMP_CFG['drop_streams'] = ['std::cerr']
 CMP_ROOTS = ['(anonymous namespace)::comparison_result']
+VCST_CFG = {
+    'names': {'value_cst::cmp': 'value_cst_cmp', 'zw_value::get_type': 'vc_get_type', 'value_type::operator==': 'vc_type_eq',
+              '_ZN10value_typeC1ERKS_': 'vc_type_copy'},
+    'extern': {r'constant::operator<': 'constant_lt'},
+    'globals': {'value_cst::vtype': 'g_vtype_cst'},
+    'bodies_prelude': 'extern value_type g_vtype_cst;\n_Bool constant_lt(const constant *self, constant that);\n',
+}
+VCST_ROOTS = ['value_cst::cmp']
 STK_ROOTS = ['(anonymous namespace)::compare_stack', 'stack::operator<', 'stack::operator==']
 
 ROOTS = ['constant::operator<', 'constant::operator>', 'constant::operator<=', 'constant::operator>=',
@@ -88,6 +96,10 @@ def jobs(tier):
     J.append(Job('comparison_words', csrc, 'h_comparison_words', includes=inc, kind='proof', unwind=3, timeout=600,
                  cbmc_args=['--object-bits', '10'],
                  note='comparison_result (words ?lt ?eq ?gt) on two symbolic values vs compare_stack on one-slot stacks; loops only over one slot (full unwind)'))
+    vsrc = [os.path.join(HERE, 'vcst_harness.c'), os.path.join(OUT, 'vcst_bodies.c'), os.path.join(OUT, 'cst_bodies.c')]
+    J.append(Job('value_cst_cmp', vsrc, 'h_value_cst_cmp', replace=['mpz_lt'], includes=inc, kind='proof', timeout=600,
+                 cbmc_args=['--object-bits', '10'], inputs=INPUTS,
+                 note='value_cst::cmp (value-cst.cc) on two symbolic constants against constant::operator< (lowered, linked in)'))
     J.append(Job('stack_control', ssrc, 'hb_control', includes=inc, defines=['STK_N=2', 'VERIF_CONTROL'], kind='control',
                  expect='fail', unwind=4, timeout=300, cbmc_args=['--object-bits', '10']))
     return J
@@ -114,6 +126,8 @@ def prepare(tier):
     lw = vlib.extract('cst', 'libzwerg/constant.cc', CFG, ROOTS, OUT)
     sw = vlib.extract('stk', 'libzwerg/stack.cc', STK_CFG, STK_ROOTS, OUT)
     cw = vlib.extract('cmp', 'libzwerg/builtin-cmp.cc', CMP_CFG, CMP_ROOTS, OUT)
+    vw = vlib.extract('vcst', 'libzwerg/value-cst.cc', VCST_CFG, VCST_ROOTS, OUT)
+    lw.report['functions'] += vw.report['functions']
     lw.report['functions'] += cw.report['functions']
     lw.report['functions'] += sw.report['functions']
     lw.report['virtual_calls'] += sw.report['virtual_calls']
